@@ -68,12 +68,15 @@ StepChain(e) ==
          A1 == UNION {Check(seenC \cup (newC \ {n}), ChainFieldNames, "chain", n[1], n[2], n[3], e) : n \in newC}
          A2 == IF e.a.name = "via" /\ e.perr # "" THEN {Alarm("Conformance", e, "chain", {}, <<e.a.path, e.perr>>)} ELSE {}
          tampered == [e.v EXCEPT ![e.a.field] = e.a.nv]
-         A3 == IF e.a.name = "tamper" /\ ~Mon_TamperRejected(e.v, tampered, e.accepted)
+         A3 == IF e.a.name = "tamper" /\ ~e.a.strip /\ ~Mon_TamperRejected(e.v, tampered, e.accepted)
                  THEN {Alarm("Mon_TamperRejected", e, "chain", {e.a.field}, <<e.a.path, "accepted">>)} ELSE {}
-         \* the other direction is not claimed by the statement: a rejection of fields that still match
+         \* not claimed by the statement, but what the code does (drift if it stops doing it): fields
+         \* that still match their embedded hash, or that come without one, are accepted
          A4 == IF e.a.name = "tamper" /\ ~e.accepted
-                  /\ ChainHash(ChainOfInfo(tampered)) = ChainHash(ChainOfInfo(e.v))
-                 THEN {Alarm("Conformance", e, "chain", {e.a.field}, <<e.a.path, "rejected although the hash still matches">>)} ELSE {}
+                  /\ (e.a.strip \/ ChainHash(ChainOfInfo(tampered)) = ChainHash(ChainOfInfo(e.v)))
+                 THEN {Alarm("Conformance", e, "chain", {e.a.field},
+                             <<e.a.path, IF e.a.strip THEN "rejected although no hash is embedded"
+                                         ELSE "rejected although the hash still matches">>)} ELSE {}
      IN /\ seenC' = seenC \cup newC /\ seenG' = seenG
         /\ alarms' = alarms \cup A1 \cup A2 \cup A3 \cup A4
   /\ val' = e.v /\ act' = e.a /\ prev' = val /\ scen' = scen
